@@ -203,7 +203,7 @@ def _work(ctx: Ctx, item):
 
 
 def run(ctx: Ctx):
-    n = 120 if ctx.quick else 2500
+    n = 120 if ctx.quick else 6000
     pmap(ctx, _work, [(n,)] * 16)
 
 
